@@ -379,7 +379,7 @@ where
     let found: RefCell<BTreeSet<String>> = RefCell::new(BTreeSet::new());
     let mut remaining = cases;
     let mut round = 0u64;
-    while remaining > 0 && round < 6 {
+    while remaining > 0 && round < 64 {
         let target: RefCell<Option<String>> = RefCell::new(None);
         let done = RefCell::new(0u32);
         let cell = RefCell::new(&mut *ctx);
